@@ -265,6 +265,37 @@ func H_C10_delete_inverts_insert() {
 	verifAssert(a.root == nil, "empty-after-deleting-all")
 }
 
+// tries are persistent structures: a copy (SecureTrie.Copy is a struct copy, the state layer takes one
+// per snapshot) shares its nodes with the original, so whatever is written to either afterwards must
+// leave the other exactly as it was - same structure, same lookups
+//verif:opt unwind=24 budget_s=900 split=32
+func H_C10_copied_trie_is_unaffected_by_later_writes() {
+	k1, k2 := c10Key(), c10Key()
+	verifAssume(!bytes.Equal(k1, k2))
+	v1, v2 := c10Val(), c10Val()
+	a, ref := &Trie{}, &Trie{}
+	a.TryUpdate(k1, v1)
+	a.TryUpdate(k2, v2)
+	ref.TryUpdate(append([]byte(nil), k1...), v1)
+	ref.TryUpdate(append([]byte(nil), k2...), v2)
+	snap := *a
+	switch verifCase(4) {
+	case 0:
+		a.TryDelete(k1)
+	case 1:
+		a.TryDelete(k2)
+	case 2:
+		a.TryUpdate(k1, verifNondetBytes(1))
+	case 3:
+		a.TryUpdate(c10Key(), verifNondetBytes(1))
+	}
+	verifReach("original-written-after-copy")
+	verifAssert(c10Equal(snap.root, ref.root), "copy-keeps-its-structure")
+	g1, _ := snap.TryGet(k1)
+	g2, _ := snap.TryGet(k2)
+	verifAssert(bytes.Equal(g1, v1) && bytes.Equal(g2, v2), "copy-keeps-its-values")
+}
+
 type c10ProofDB struct{ m map[string][]byte }
 
 func (d *c10ProofDB) Put(key []byte, value []byte) error { d.m[string(key)] = value; return nil }
